@@ -126,7 +126,15 @@ func containerMain(args []string) error {
 			WithTmpfs("tmp", "").
 			FilterNotExist().Mounts,
 	}
-	env, err := b.Build()
+	// Build pings the new init with a 3 s deadline; on a loaded machine the init process may not
+	// be up by then, so try again a few times before giving up
+	var env container.Environment
+	for try := 0; try < 6; try++ {
+		if env, err = b.Build(); err == nil {
+			break
+		}
+		time.Sleep(time.Duration(try+1) * 500 * time.Millisecond)
+	}
 	if err != nil {
 		return fmt.Errorf("container build: %w", err)
 	}
@@ -161,8 +169,11 @@ func containerMain(args []string) error {
 		for s := 0; s < 2; s++ {
 			so := StartObs{Rbx: int(p.ExecFile), Rbf: uints(p.Files), Rbc: int(p.CgroupFD), Got: []FdEnt{}, Sta: -1}
 			before := len(countLines())
-			ctx, cancel := context.WithTimeout(context.Background(), 20*time.Second)
+			ctx, cancel := context.WithTimeout(context.Background(), 90*time.Second)
 			res := env.Execve(ctx, p)
+			if ctx.Err() != nil { // machine too slow, not a verdict
+				o.Setup = "Execve did not finish within 90 s"
+			}
 			cancel()
 			so.Rax, so.Raf, so.Rac = int(p.ExecFile), uints(p.Files), int(p.CgroupFD)
 			if res.Status != runner.StatusNormal {
